@@ -211,7 +211,7 @@ fn main() {
         t.transitions += other_names.len() as u64;
         check_other_kind(t, &p, &other_names);
     });
-    let n = run.pick(4, 4);
+    let n = run.pick(4, 5);
     let names = all_names(4);
     run.bound(format!(
         "{} patterns of <= {} tokens (minus those with '**' or more than 3 '*') x {} names",
